@@ -81,6 +81,7 @@ def _ops(program) -> list[tuple]:
             ops += [("rec", None, 1), ("rec", None, 1.0)]  # call(k) whose body calls the next key
     else:
         ops += [("call", r, k) for r in ("r1", "r1p", "r2") for k in (1, 1.0)]
+        ops += [("renew", "r2", None)]  # drop receiver r2 and create a new one (likely at its address)
     if program["expiration"] is not None:
         ops += [("adv", 1.0), ("adv", 4.0)]
     return ops
@@ -172,13 +173,15 @@ def execute(program, ch: Chooser) -> Result:  # noqa: C901, PLR0912, PLR0915
         typed_collision = False
         seen_vals: set = set()
         st = {"hits": 0, "evictions": 0, "expiries": 0, "typed": False, "nested_inv": 0}
+        gen: dict = {}
         NEXT = {1: 1.0, 1.0: True, True: 1}
 
         def do_call(op, nested: bool = False) -> bool:  # noqa: C901, PLR0911, PLR0912
             _, r, k = op
             kind = "call" if op[0] == "rec" else op[0]
-            key = (kind, r, type(k).__name__, k)
-            argsig = (r, (type(k).__name__, k))
+            rname = recvs[r].name if r is not None else None  # changes when the receiver is renewed
+            key = (kind, rname, type(k).__name__, k)
+            argsig = (rname, (type(k).__name__, k))
             if any(v == k and tv != type(k).__name__ for tv, v in seen_vals):
                 st["typed"] = True
             seen_vals.add((type(k).__name__, k))
@@ -261,6 +264,13 @@ def execute(program, ch: Chooser) -> Result:  # noqa: C901, PLR0912, PLR0915
             hist.append(list(op))
             if op[0] == "adv":
                 vtime.advance(op[1])
+                continue
+            if op[0] == "renew":
+                r = op[1]
+                gen[r] = gen.get(r, 0) + 1
+                value = recvs[r].value
+                del recvs[r]  # freed at once (the cache must only hold a weak reference)
+                recvs[r] = Owner(f"{r}#{gen[r]}", value)
                 continue
             if not do_call(op) or not nested_ok[0]:
                 break
